@@ -362,6 +362,8 @@ def V1_validate_table(ctx):
               and mentions_field(a.d['term'][1], 'TransactionResult.read_set')]
         if not it or it[0].d['outcome'] != 'Some':
             continue
+        if len([a for a in it if a.d['outcome'] == 'Some']) > 1:
+            continue    # the table is read off the single-iteration paths; a second read may raise the conflict on its own
         first = it[0].d['term'][1]
         st = [e for e in assigns(p, 'TxState.status')]
         if not st:
@@ -377,7 +379,12 @@ def V1_validate_table(ctx):
             if t[0] == 'discr' and mentions(t[1], first) and not has_call(t[1], '~DashMap') and not has_call(t[1], 'Beneficiary'):
                 tt = strip(t[1])
                 if tt[0] == 'field' and tt[2].startswith('tuple.1'):
-                    facts_['version'] = o
+                    cur = facts_.get('version')
+                    if o.startswith('!') and cur is not None:
+                        if cur.startswith('!'):
+                            facts_['version'] = '!' + '|'.join(sorted(set(cur[1:].split('|') + o[1:].split('|'))))
+                    else:
+                        facts_['version'] = o
             if t[0] == 'call' and callee_matches(t[1], 'BeneficiaryValidation::is_valid'):
                 facts_['valid'] = o == 'true'
             if t[0] == 'discr' and t[1][0] == 'call' and norm_callee(t[1][1]).endswith('DashMap::get'):
@@ -390,6 +397,15 @@ def V1_validate_table(ctx):
             if n and n[0] in ('Eq', 'Ne'):
                 l, r = n[1], n[2]
                 for x, y in ((l, r), (r, l)):
+                    lv = y[2] if y[0] == 'agg' and y[1].endswith('ReadVersion') and not y[3] else (y[1].split('::')[-1] if y[0] == 'const' and 'ReadVersion::' in y[1] else None)
+                    xs = strip(x)
+                    if lv and xs[0] == 'field' and xs[2].startswith('tuple.1') and mentions(x, strip(first)):
+                        # `*version == ReadVersion::Storage` spelled with the derived PartialEq instead of a pattern
+                        cur = facts_.get('version')
+                        if n[0] == 'Eq':
+                            facts_['version'] = lv
+                        elif cur is None or cur.startswith('!'):
+                            facts_['version'] = '!' + '|'.join(sorted(set((cur[1:].split('|') if cur else []) + [lv])))
                     if is_field(x, 'TxVersion.txid') and mentions(x, strip(first)) and y[0] == 'field' and y[2].startswith('tuple.0'):
                         facts_['txid_eq'] = n[0] == 'Eq'
                     if is_field(x, 'TxVersion.incarnation') and mentions(x, strip(first)) and is_field(y, 'MemoryEntry.incarnation'):
